@@ -4,7 +4,7 @@
 // program only produces schedules.  It plays a supporting role: a report is a
 // concrete witness of a violation, silence proves nothing.
 //
-//	workload -scenario load|insert|pipeline|get|numhash|latest -seed N -rounds K
+//	workload -scenario load|insert|pipeline|get|cache|numhash|latest -seed N -rounds K
 package main
 
 import (
@@ -234,19 +234,26 @@ func scenarioGet(r *rng, rounds int, cn *counters) {
 		c := jrpc2.New(nd.url()).WithMaxReads(r.rng(2, 6))
 		var wg sync.WaitGroup
 		start, limit := uint64(r.rng(1, 300)), uint64(r.rng(1, 4))
+		// a fraction of the header/block fetches fails (HTTP 500, error member,
+		// broken parent link) while other goroutines are inside the same caches
+		for off := uint64(0); off < 3; off++ {
+			if r.rng(0, 2) > 0 {
+				nd.failFetch(start+off, r.rng(1, 3), r.rng(1, 3))
+			}
+		}
 		for g := 0; g < r.rng(3, 8); g++ {
 			p := plans[r.rng(0, len(plans)-1)]
 			ig, err := shovel.NewDestination(p.integration())
 			must(err)
 			f := ig.Filter()
 			off := uint64(0)
-			if r.rng(0, 3) == 0 {
+			if r.rng(0, 2) == 0 {
 				off = uint64(r.rng(0, 2))
 			}
 			wg.Add(1)
 			go func() {
 				defer wg.Done()
-				for k := 0; k < 3; k++ {
+				for k := 0; k < 5; k++ {
 					// the result is not touched here: every access to block
 					// data in a report must come from the repository's own code
 					_, err := c.Get(context.Background(), nd.url(), &f, start+off, limit)
@@ -278,6 +285,9 @@ func scenarioPipeline(r *rng, rounds int, cn *counters) {
 		}
 		for _, k := range []uint64{3, 9, 15} {
 			nd.failPoll[k+uint64(r.rng(0, 2))] = true
+		}
+		for k := 0; k < 4; k++ { // some segment fetches fail once or twice; the tasks retry
+			nd.failFetch(uint64(21+r.rng(0, 12)), r.rng(1, 3), r.rng(1, 2))
 		}
 		var stop atomic.Bool
 		go func() { // chain activity while the tasks run
@@ -395,6 +405,43 @@ func stepWithCounter(cn *counters) {
 	nd.awaitPolls(2)
 }
 
+// the segment cache on its own: several goroutines on overlapping and distinct
+// keys, a getter that fails for a fraction of the calls
+func scenarioCache(r *rng, rounds int, cn *counters) {
+	for round := 0; round < rounds; round++ {
+		vc := jrpc2.VerifNewCache(r.rng(2, 6))
+		base := uint64(r.rng(1, 1000))
+		var calls atomic.Uint64
+		getter := func(start, limit uint64) ([]eth.Block, error) {
+			if calls.Add(1)%3 == 0 {
+				return nil, errors.New("scripted fetch failure")
+			}
+			res := make([]eth.Block, limit)
+			for i := range res {
+				res[i].Header.Number = eth.Uint64(start + uint64(i))
+			}
+			return res, nil
+		}
+		var wg sync.WaitGroup
+		for g := 0; g < r.rng(3, 8); g++ {
+			g := g
+			wg.Add(1)
+			go func() {
+				defer wg.Done()
+				for k := 0; k < 30; k++ {
+					start := base + uint64((g+k)%5)
+					if _, err := vc.Get(false, start, uint64(1+k%2), getter); err != nil {
+						cn.add("cache get error", 1)
+					} else {
+						cn.add("cache get ok", 1)
+					}
+				}
+			}()
+		}
+		wg.Wait()
+	}
+}
+
 // the head cache from several goroutines
 func scenarioNumHash(r *rng, rounds int, cn *counters) {
 	for round := 0; round < rounds; round++ {
@@ -497,7 +544,7 @@ func must(err error) {
 
 func main() {
 	var (
-		scenario = flag.String("scenario", "load", "load|insert|pipeline|get|numhash|latest")
+		scenario = flag.String("scenario", "load", "load|insert|pipeline|get|cache|numhash|latest")
 		seed     = flag.Uint64("seed", 1, "seed of every random choice")
 		rounds   = flag.Int("rounds", 5, "rounds")
 	)
@@ -514,6 +561,8 @@ func main() {
 		scenarioPipeline(r, *rounds, cn)
 	case "get":
 		scenarioGet(r, *rounds, cn)
+	case "cache":
+		scenarioCache(r, *rounds, cn)
 	case "numhash":
 		scenarioNumHash(r, *rounds, cn)
 	case "latest":
